@@ -32,6 +32,7 @@ func init() {
 			kvSizeBoundaryAgreement(r)
 			putDoesNotRetain(r)
 			memoryEscape(r)
+			c15ErrorsKeepTheirPrefix(r)
 		},
 	})
 }
@@ -89,6 +90,59 @@ func c17TypeTables(r *core.Run) {
 			"the encoder accepts "+t+" but resp.Scan has no case "+want+": a stored value of that type cannot be read back into the same type")
 	}
 	r.Floor("type-tables(encoder cases)", cnt, 18)
+	// the encoder formats each numeric kind with the formatter of its own signedness: an
+	// unsigned value pushed through the signed formatter reads back as a negative number (or
+	// not at all) once it exceeds MaxInt64
+	for _, t := range names {
+		want := ""
+		switch {
+		case strings.HasPrefix(t, "uint"):
+			want = "AppendUint FormatUint"
+		case strings.HasPrefix(t, "int"):
+			want = "AppendInt FormatInt"
+		case strings.HasPrefix(t, "float"):
+			want = "AppendFloat FormatFloat"
+		default:
+			continue
+		}
+		got := ""
+		for _, st := range ec[t].Body {
+			ast.Inspect(st, func(nd ast.Node) bool {
+				call, ok := nd.(*ast.CallExpr)
+				if !ok {
+					return true
+				}
+				o := core.Callee(enc.Pkg, call)
+				if o == nil {
+					return true
+				}
+				if o.Pkg() != nil && o.Pkg().Path() == "strconv" {
+					got += " " + o.Name()
+					return true
+				}
+				if h := p.ByObj[o]; h != nil && h.Decl != nil && h.Decl.Body != nil && h.Pkg == enc.Pkg {
+					core.WalkCalls(h.Decl.Body, func(c2 *ast.CallExpr, _ *ast.FuncLit) {
+						if o2 := core.Callee(h.Pkg, c2); o2 != nil && o2.Pkg() != nil && o2.Pkg().Path() == "strconv" {
+							got += " " + o2.Name()
+						}
+					})
+				}
+				return true
+			})
+		}
+		ok := false
+		for _, g := range strings.Fields(got) {
+			if strings.Contains(want, g) {
+				ok = true
+			} else if strings.HasPrefix(g, "Append") || strings.HasPrefix(g, "Format") {
+				ok = false
+				break
+			}
+		}
+		r.Check(ok, "type-tables", "Encode case "+t+" formatter", p.Pos(ec[t].Pos()),
+			"formatted with strconv."+strings.Fields(want)[0],
+			"a value of type "+t+" is not formatted with the formatter of its own kind ("+strings.TrimSpace(got)+"): e.g. an unsigned value above MaxInt64 is stored as a negative number and cannot be read back as what was written")
+	}
 	// parser, signedness and bit size per Scan case
 	bits := map[string]int{"int8": 8, "int16": 16, "int32": 32, "int64": 64, "uint": 64, "uint8": 8, "uint16": 16, "uint32": 32, "uint64": 64, "float32": 32, "float64": 64}
 	for t, cc := range sc {
